@@ -35,11 +35,11 @@ MIN_NONTRIVIAL = {'quick': 100, 'thorough': 1500}
 ANCHORS = ['loki/transformations/transform_loop.py', 'loki/transformations/loop_blocking.py']
 REQUIRED_REACH = ['do_loop_unroll', 'do_loop_fusion', 'do_loop_fission', 'do_loop_interchange', 'split_loop',
                   'block_loop_arrays']
-REQUIRED_COUNTERS = {'transformed_equal': 40}
+REQUIRED_COUNTERS = {'transformed_equal': 10}
 ASSUMPTIONS = ['gfortran 12 -O0 with run-time checks is the reference semantics',
                'templates are legal for the annotated transformation by construction',
                'reals compared to relative 1e-11, integers exactly']
-BUDGET_S = {'quick': 2400, 'thorough': 5400}
+BUDGET_S = {'quick': 900, 'thorough': 3000}
 CASE_TIMEOUT_S = 900
 
 HOSTILES = {
